@@ -8,4 +8,5 @@ import SpgProofs.Properties.C15
 #print axioms Spg.C15.update_honoured
 #print axioms Spg.C15.body_alphabet
 #print axioms Spg.C15.receivers_value
+#print axioms Spg.C15.package_state
 #print axioms Spg.C15.pointer_receiver_counterexample
